@@ -21,8 +21,8 @@ from checks import c02
 PID = "C01"
 RULE = ("configurations of (base, Moebius map, rotation, translation, scale, k, resampling, solver, fit) within the deviation bound of a centre; "
         "all connected sub-tissues of a base. non-trivial = unique up to scale (nullity 1) with at least one junction; classes = (base, map, k, ne, solver, fit)")
-BOUND = {"quick": "deviation bound d=2 around the centre of 2 bases (+1 seeded), all connected sub-tissues of an 11-cell base (3 configurations each, one with the library's default allow_negatives); point counts 0..16 per interface and mixed per-interface counts; one major-arc family",
-         "thorough": "d=3 on one base, d=2 on three, full product k x ne x solver x fit on one base, all sub-tissues of a 12-cell base (5 configurations)"}
+BOUND = {"quick": "deviation bound d=2 around the centre of 2 bases (+1 seeded), all connected sub-tissues of an 11-cell base (3 configurations each, one with the library's default allow_negatives); point counts 0..16 per interface and mixed per-interface counts; one major-arc family; d=1 around two tissues with a lens cell (two interfaces sharing both end junctions) kept in exact force balance",
+         "thorough": "d=3 on one base, d=2 on three, full product k x ne x solver x fit on one base, all sub-tissues of a 12-cell base (5 configurations); d=2 around three tissues with a lens cell"}
 ASSUMPTIONS = ["tolerance(iii) = 10 x (measured max coefficient error) x sqrt(nnz) x |z| / sigma_min(reference augmented system) + solver term (1e-8 default path, 2e-4/sigma_min iterative back-ends)",
                "instances where force balance does not determine the tensions up to scale (nullity != 1) give no verdict",
                "with k=0 resampling is taken with replace_short_edges=False (contracting border edges moves the far end of inferred interfaces)",
@@ -66,7 +66,7 @@ def judge(at, cm, r, method, fit, viol, known, tags, neg=False):
         x = np.array(r.forces, float)
         # ---- (i) matrix: per pair, against the analytic tangent with the fit budget of that interface;
         # a pair that equals the per-component sign-forced tangent (finding F1) is attributed to F1
-        straight = all(o[0] != "mob" for o in cm.ops)
+        straight = all(o[0] != "mob" for o in cm.ops) and all(it["phi"] == 0.0 for it in at["I"])
         tg = T.tangents(at, cm)
         be_of = {}
         for n, el in enumerate(r.fm.big_edges_to_use):
@@ -233,6 +233,8 @@ class Geometry(ProductSystem):
         if cfg["k"] == 0 and mobspec[0] in ("m", "mc"):
             # two-point "arcs" are chords: such a tissue is not in force balance; outside the statement
             return {"viol": [], "tags": ["outside:k0_curved"], "cls": "k0-curved", "outdom": True}
+        if cfg["k"] == 0 and any(it["phi"] != 0.0 for it in at["I"]):
+            return {"viol": [], "tags": ["outside:k0_curved"], "cls": "k0-curved", "outdom": True}     # lens arcs as chords
         cm = SC.make_cmap(mobspec, cfg["rot"], cfg["trans"], cfg["scale"], SC.extent_of(at))
         if isinstance(cfg["k"], list):
             tags.append("mixed_point_counts")
@@ -439,6 +441,7 @@ def build(tier, seed):
     if tier == "quick":
         return [Geometry(["v5x5", "v6x5"], 2, 8, seed),
                 Geometry(["v6x6p%d" % (seed + 1)], 1, 8, seed),
+                Geometry(["v5x5+lens0", "v6x5+lens5"], 1, 8, seed),      # a cell with two sides: two inferred interfaces share both end junctions
                 SubTissues("v5x5", [(["m", 0.05, 0.02], 3, None, "dlite"), (["id"], 0, None, "dlite"), (["m", 0.05, 0.02], 2, None, "taubinSVD", True)]),
                 MajorArcs("raw5x5j30p0", "16", 16),
                 ListSystem("live-translations", [{"base": b, "mob": m, "fit": f, "solver": sv, "tr": tr, "rot": 0.1234 + 0.37 * seed + 0.5 * i}
@@ -448,6 +451,7 @@ def build(tier, seed):
                                                    for b in ("v5x5", "v6x5") for m in (["m", 0.05, 0.02], ["id"]) for f in ("dlite", "taubinSVD") for sv in (None, "lsq")], eval_after_others)]
     return [Geometry(["v5x5"], 3, 12, seed),
             Geometry(["v6x5", "v6x6", "v7x6p%d" % (seed + 1)], 2, 24, seed),
+            Geometry(["v5x5+lens0", "v6x5+lens5", "v6x6+lens2"], 2, 8, seed),
             SubTissues("v6x5", [(["m", 0.05, 0.02], 3, None, "dlite"), (["id"], 0, None, "dlite"), (["mc", 0.12, 0.05], 5, "lsq", "taubinSVD"),
                                 (["m", 0.05, 0.02], 2, None, "taubinSVD", True), (["id"], 1, None, "dlite", True)]),
             MajorArcs("raw5x5j30p0", "16", 16), MajorArcs("raw5x5j30p0", "16", 12),
